@@ -65,6 +65,9 @@ def run(W, chk):
         X = W.run(fm, "execute", vp)
         all_elements_processed(chk, W, X, r"^Store\(FARMS\)", vp[-1], "LOOP-all-elements")
     farm_expiry_epoch(chk, W.run(fm, "execute", ("ManageFarm", ".action", "Create")), "Create")
+    # the farms counted against max_concurrent_farms are read up to that maximum (not up to the pagination default)
+    from rules.common import farm_enumeration_bound
+    farm_enumeration_bound(chk, W.run(fm, "execute", ("ManageFarm", ".action", "Create")), "Create", W)
     # ------------------------------------------------------------ creation guards
     guards = [
         ("lp denom from pool manager", [LP_BY_PM(MP)], ()),
